@@ -351,7 +351,7 @@ class Interp:
             base = self.ev(e.value)
             if isinstance(base, Obj):
                 return base.get(e.attr, e)
-            if isinstance(base, ast.AST) or base is ast:
+            if isinstance(base, ast.AST) or base is ast or isinstance(base, __import__("types").ModuleType):
                 try:
                     return getattr(base, e.attr)
                 except AttributeError:
@@ -657,7 +657,14 @@ class Interp:
                     return a in o._attrs
                 if o is None:
                     return False
+                if not isinstance(o, (Opaque, Sym)) and isinstance(a, str):
+                    return hasattr(o, a)
                 raise Unsupported(e, "(hasattr on a non-model value)")
+            if nm == "issubclass" and len(e.args) == 2 and nm not in self.env:
+                a0, a1 = self.ev(e.args[0]), self.ev(e.args[1])
+                if isinstance(a0, type) and (isinstance(a1, type) or (isinstance(a1, tuple) and all(isinstance(x, type) for x in a1))):
+                    return issubclass(a0, a1)
+                raise Unsupported(e, "(issubclass on a model value)")
             if nm == "defaultdict" and len(e.args) == 1 and isinstance(e.args[0], ast.Name) and e.args[0].id in ("list", "set", "dict"):
                 import collections as _c
 
@@ -665,7 +672,7 @@ class Interp:
             if nm == "isinstance" and len(e.args) == 2:
                 v0 = self.ev(e.args[0])
                 classes0 = e.args[1].elts if isinstance(e.args[1], ast.Tuple) else [e.args[1]]
-                native = {"bool": bool, "int": int, "str": str, "list": list, "tuple": tuple, "dict": dict, "float": float, "set": set, "type": type}
+                native = {"bool": bool, "int": int, "str": str, "list": list, "tuple": tuple, "dict": dict, "float": float, "set": set, "type": type, "super": super}
                 if not isinstance(v0, (Obj, Opaque, Sym)) and all(norm(c) in native for c in classes0):
                     return any(isinstance(v0, native[norm(c)]) for c in classes0)
                 if isinstance(v0, Sym) and all(norm(c) in native for c in classes0):
@@ -699,6 +706,16 @@ class Interp:
                 if not isinstance(a, ast.Starred):
                     self.ev(a)
             return Opaque(nm)
+        if isinstance(f, ast.Attribute) and isinstance(f.value, ast.Call) and isinstance(f.value.func, ast.Name) and f.value.func.id == "super" and not f.value.args:
+            resolver = self.globals.get("__super__")
+            cur = getattr(self, "current_fn", None)
+            if resolver is None or cur is None:
+                raise Unsupported(e, "(super() outside a modelled method)")
+            target_fn = resolver(cur, f.attr)
+            if target_fn is None:
+                raise Unsupported(e, f"(super().{f.attr} not found)")
+            self_name = cur.args.args[0].arg
+            return self.call_def(target_fn, [self.env[self_name]] + self.elts(e.args), e, {k.arg: self.ev(k.value) for k in e.keywords if k.arg})
         if isinstance(f, ast.Attribute):
             recv = self.ev(f.value)
             meth = f.attr
@@ -784,6 +801,7 @@ def call_def(self: "Interp", fn: ast.FunctionDef, args: List[Any], node: ast.AST
     if missing:
         raise Unsupported(node, f"(missing arguments {missing} for {fn.name})")
     sub = Interp(env0, self.effect_methods, tuple(self.syms), self.funcs, self.isinstance_hook, self.method_defs, self.module_defs, self.globals)
+    sub.current_fn = fn  # type: ignore[attr-defined]
     if any((isinstance(d, ast.Name) and d.id == "contextmanager") or (isinstance(d, ast.Attribute) and d.attr == "contextmanager") for d in fn.decorator_list):
         return _context_manager(sub, fn)
     sub.steps = self.steps
